@@ -443,6 +443,25 @@ fn gen_c01(r: &mut Rng, t: Tier, job: u64) -> Plan {
             }
         }
     }
+    if r.chance(1, 12) {
+        // bytes that are not valid UTF-8 cannot be handed to the shim as text: no callback may
+        // carry them, repaired or not (last command: the connection may end here)
+        let l = 2 + r.usize_below(40);
+        let mut t = blob_ascii(r, l).to_vec();
+        let at = r.usize_below(t.len());
+        t[at] = *r.pick(&[0xffu8, 0xfe, 0x80, 0xc3, 0xe9, 0xc0]);
+        if t[at] == 0xc3 {
+            t.truncate(at + 1); // truncated multi-byte sequence at the end
+        }
+        if std::str::from_utf8(&t).is_err() {
+            let b = Blob::Lit(t);
+            cmds.push(Cmd {
+                seq: 0,
+                kind: if r.coin() { CmdKind::Query(b) } else { CmdKind::Prepare(b) },
+                act: Act::None,
+            });
+        }
+    }
     let mut p = Plan::basic(cmds);
     p.reads = gen_reads(r);
     // whole client stream available up front: only the read partition varies
@@ -519,7 +538,12 @@ fn near_miss(r: &mut Rng) -> Vec<u8> {
     r.pick(opts).to_vec()
 }
 
-fn gen_c02(r: &mut Rng, _t: Tier, _job: u64) -> Plan {
+fn gen_c02(r: &mut Rng, t: Tier, job: u64) -> Plan {
+    if job < if t == Tier::Quick { 6 } else { 150 } {
+        // multi-packet commands (one, two or three full packets) must reach the right callback
+        // verbatim too
+        return gen_giant_inbound(r, 0);
+    }
     let mut o = ConvOpts::std();
     o.max_cmds = 40;
     o.simple_programs = true;
@@ -694,7 +718,12 @@ pub fn wrong_kind_cell(r: &mut Rng, coltype: u8) -> Cell {
     }
 }
 
-fn gen_c03(r: &mut Rng, _t: Tier, _job: u64) -> Plan {
+fn gen_c03(r: &mut Rng, t: Tier, job: u64) -> Plan {
+    if job < if t == Tier::Quick { 10 } else { 250 } {
+        // responses whose messages sit on the 2^24-1 boundary: exactly one response, client
+        // command-ready afterwards (sentinel PING)
+        return super::props3::gen_c04_plan(r, t, job);
+    }
     let mut o = ConvOpts::std();
     o.sentinel_pings = true;
     o.w = [30, 8, 8, 4, 6, 4, 12, 18, 5, 5];
@@ -905,7 +934,47 @@ fn gen_c12(r: &mut Rng, _t: Tier, _job: u64) -> Plan {
     let mut o = ConvOpts::std();
     o.sentinel_pings = r.coin();
     o.init_errors = true;
-    let cmds = gen_conv(r, &o);
+    let mut cmds = gen_conv(r, &o);
+    if r.chance(1, 10) {
+        // replies of many packets, in particular around 256*k packets (the sequence counter
+        // comes back to where it started): a one-column resultset of n rows is n + 4 packets
+        let rows = match r.below(4) {
+            0 => 250 + r.usize_below(5),
+            1 => 506 + r.usize_below(5),
+            2 => 762 + r.usize_below(5),
+            _ => r.usize_below(800),
+        };
+        let unit = RowsUnit {
+            cols: vec![ColSpec {
+                table: Blob::lit(b"t"),
+                name: Blob::lit(b"c"),
+                coltype: 0x03,
+                flags: 0,
+            }],
+            rows: (0..rows).map(|i| vec![Cell::I32(i as i32)]).collect(),
+            write_row: r.coin(),
+            last_row_ended: true,
+            close: Close::Finish,
+            contra: None,
+            recover: None,
+        };
+        let pos = r
+            .usize_below(cmds.len() + 1)
+            .min(cmds.iter().position(|c| matches!(c.kind, CmdKind::Quit)).unwrap_or(cmds.len()));
+        cmds.insert(
+            pos,
+            Cmd {
+                seq: 0,
+                kind: CmdKind::Query(Blob::lit(b"many packets")),
+                act: Act::Program(Program {
+                    units: vec![Unit::Rows(unit)],
+                    end: End::Implicit,
+                    ret_err: None,
+                    probe_cells: false,
+                }),
+            },
+        );
+    }
     let mut p = finish_plan(r, cmds);
     // arrival styles biased towards lock-step and odd batch sizes
     p.arrival = match r.weighted(&[40, 20, 30, 10]) {
